@@ -17,6 +17,7 @@ from sim import rng, lensgen, sut
 from sim.canon import RunningDigest, canon, digest, same, find_opaque
 from sim.model import Model, NotApplicable, strip2d, INF
 from sim.sut import quiet, f
+from sim.simfs import SimFS
 
 ENGINE = 'history'
 PROBE_WLS = [0.55, 0.4861327, 0.6562725]
@@ -42,6 +43,16 @@ def norm_msg(e):
     for chn in s[:90]:
         out.append('#' if chn.isdigit() else chn)
     return ''.join(out).replace(' ', '_')
+
+
+def numba_seed(n):
+    """The scatter kernels are the only numba code in optiland.  The check
+    runs them with NUMBA_DISABLE_JIT=1 (same source, interpreted): compiled,
+    they spin forever on a non-finite ray, cannot be interrupted, and their
+    on-disk cache makes the first call raise ReferenceError depending on what
+    an earlier process left there.  Interpreted, they draw from numpy's
+    global generator, which is reseeded here before each compared trace."""
+    np.random.seed(n)
 
 
 _REF_N = {}
@@ -111,7 +122,8 @@ class World:
         self.target = None      # (field, k) the current op is meant to change
         self.opname = None
         self.vars = []          # live Variable handles
-        self.fs = {}            # SimFS for C19
+        self.fs = SimFS()       # durable storage for C19 checkpoints
+        self.last_applied = None
         self.shape = []
 
     # ---- helpers
@@ -170,6 +182,7 @@ class World:
             return False
         self.stats['ops'][kind] = self.stats['ops'].get(kind, 0) + 1
         self.stats['steps'] += 1
+        self.last_applied = kind
         self.shape.append(kind if kind != 'var' else 'var:' + op['type'])
         self.check_state(op)
         return True
@@ -482,6 +495,11 @@ class World:
                 continue
             self.stats['oracle_checks'] += 1
             k, h = s['k'], s['h']
+            if not all(map(math.isfinite, ya[:k + 1] + ua[:k])):
+                # no paraxial marginal ray exists (e.g. object moved onto the
+                # entrance pupil): the clause has nothing to say
+                self.probe('solve_marginal_undefined')
+                continue
             tol = 1e-9 * (1 + abs(h) + max(abs(v) for v in ya
                                            if math.isfinite(v)))
             if not feq(ya[k], h, tol):
@@ -527,6 +545,207 @@ class World:
         self.call(self.lens.scale_system, op['s'])
         self.stats['state_changes'] += 1
         self.probe('scale')
+
+
+    # ---- C19: checkpoint = save, reload, compare, optionally restart
+    def op_ckpt(self, op):
+        from optiland.optic import Optic
+        self.need_lens()
+        m = self.model
+        if (m.pickups or m.solves) and self.last_applied != 'update':
+            # "the same prescription" is only defined for a lens whose
+            # pickups are currently satisfied: checkpoint right after update()
+            self.opname = 'update'
+            try:
+                self.op_update({'op': 'update'})
+            finally:
+                self.opname = 'ckpt'
+        exact = not any(p['attr'] == 'thickness' for p in m.pickups)
+        lens = self.lens
+        mode = op.get('mode', 'dict')
+        try:
+            with quiet(), warnings.catch_warnings():
+                warnings.simplefilter('ignore')
+                d = lens.to_dict()
+        except Exception as e:
+            raise Violation('sut-exception',
+                            f'C19/ckpt/to_dict-raises/{norm_msg(e)}',
+                            f'to_dict() raised {e!r}')
+        self.stats['oracle_checks'] += 1
+        if mode == 'file':
+            path = f'/sim/lens-{self.fs.writes}.json'
+            try:
+                with self.fs.mounted(), quiet(), warnings.catch_warnings():
+                    warnings.simplefilter('ignore')
+                    from optiland.fileio import save_optiland_file
+                    save_optiland_file(lens, path)
+            except Exception as e:
+                opq = find_opaque(d)
+                what = ''
+                if opq:
+                    pth, typ = opq[0]
+                    tail = '/'.join(x for x in pth.split('/')[-2:]
+                                    if not x.isdigit())
+                    what = f'/{typ}@{tail}'
+                raise Violation('sut-exception',
+                                f'C19/ckpt/save-raises/'
+                                f'{type(e).__name__}{what}',
+                                f'save_optiland_file raised {e!r}; '
+                                f'non-JSON values in to_dict(): {opq[:4]}')
+            try:
+                with self.fs.mounted(), quiet(), warnings.catch_warnings():
+                    warnings.simplefilter('ignore')
+                    from optiland.fileio import load_optiland_file
+                    L2 = load_optiland_file(path)
+            except Exception as e:
+                raise Violation('sut-exception',
+                                f'C19/ckpt/load-raises/{norm_msg(e)}',
+                                f'load_optiland_file raised {e!r}')
+            ref = json.loads(self.fs.files[path])
+            self.probe('ckpt_file')
+        else:
+            try:
+                with quiet(), warnings.catch_warnings():
+                    warnings.simplefilter('ignore')
+                    L2 = Optic.from_dict(d)
+            except Exception as e:
+                raise Violation('sut-exception',
+                                f'C19/ckpt/from_dict-raises/{norm_msg(e)}',
+                                f'Optic.from_dict(lens.to_dict()) raised '
+                                f'{e!r}')
+            ref = d
+            self.probe('ckpt_dict')
+        # (a) the dictionary form of the reloaded lens equals the one it was
+        #     loaded from
+        try:
+            with quiet(), warnings.catch_warnings():
+                warnings.simplefilter('ignore')
+                d2 = L2.to_dict()
+        except Exception as e:
+            raise Violation('sut-exception',
+                            f'C19/ckpt/to_dict-raises-reloaded/{norm_msg(e)}',
+                            f'to_dict() of the reloaded lens raised {e!r}')
+        tol = {} if exact else {'rtol': 1e-9, 'atol': self.ztol()}
+        ok, where = same(canon(d2), canon(ref), **tol)
+        self.stats['oracle_checks'] += 1
+        if not ok:
+            key = '/'.join(x for x in where.split(':')[0].split('/')
+                           if x and not x.isdigit())
+            raise Violation('roundtrip', f'C19/ckpt/dict-differs/{key}',
+                            f'dictionary of the reloaded lens differs from '
+                            f'the one it was loaded from at {where}')
+        # (b) same behaviour: rays and paraxial quantities
+        self.compare_behaviour(lens, L2, op, exact)
+        if op.get('restart'):
+            # crash-restart: only the durable form survives
+            self.lens = L2
+            self.fault('restart_from_' + mode)
+            if self.stats['state_changes'] >= 5:
+                self.probe('restart_after_5_edits')
+
+    def compare_behaviour(self, A, B, op, exact):
+        rays = op.get('rays') or [[0.0, 0.0, 0.0, 1.0, 0]]
+        nw = len(A.wavelengths.wavelengths)
+        bsdf_ks = [k for k, s in enumerate(A.surface_group.surfaces)
+                   if s.bsdf is not None]
+
+        def trace(L, w, reseed):
+            Hx = np.array([r[0] for r in rays], dtype=float)
+            Hy = np.array([r[1] for r in rays], dtype=float)
+            Px = np.array([r[2] for r in rays], dtype=float)
+            Py = np.array([r[3] for r in rays], dtype=float)
+            if reseed is not None:
+                numba_seed(reseed)
+            try:
+                with quiet(), warnings.catch_warnings():
+                    warnings.simplefilter('ignore')
+                    L.trace_generic(Hx, Hy, Px, Py, w)
+            except Exception as e:
+                return ('raised', type(e).__name__)
+            sg = L.surface_group
+            return {q: np.array(getattr(sg, q)) for q in
+                    ('x', 'y', 'z', 'L', 'M', 'N', 'opd', 'intensity')}
+        for wi in sorted({r[4] % nw for r in rays}):
+            w = A.wavelengths.wavelengths[wi].value
+            reseed = None
+            if bsdf_ks:
+                if len(bsdf_ks) > 1 or not self.bsdf_safe(A, bsdf_ks[0],
+                                                          rays, w):
+                    self.probe('bsdf_compare_skipped')
+                    continue
+                reseed = 1234 + wi
+                self.probe('bsdf_compared')
+            ra = trace(A, w, reseed)
+            rb = trace(B, w, reseed)
+            self.stats['oracle_checks'] += 1
+            if isinstance(ra, tuple) or isinstance(rb, tuple):
+                if ra != rb:
+                    raise Violation('behaviour',
+                                    'C19/ckpt/behaviour/trace-raises',
+                                    f'trace_generic: original {ra}, reloaded '
+                                    f'{rb}')
+                self.probe('ckpt_trace_raised_both')
+                continue
+            for q in ra:
+                a, b = ra[q], rb[q]
+                if a.shape != b.shape:
+                    okq = False
+                elif exact:
+                    okq = np.array_equal(a, b, equal_nan=True)
+                else:
+                    okq = np.allclose(a, b, rtol=1e-7, atol=1e-7 * (
+                        1 + self.model.zscale), equal_nan=True)
+                if not okq:
+                    raise Violation('behaviour', f'C19/ckpt/behaviour/{q}',
+                                    f'{q} of traced rays differs between the '
+                                    f'lens and its reloaded copy at '
+                                    f'{w} um: {a.tolist()} vs {b.tolist()}')
+            if not np.isfinite(ra['y'][-1]).all():
+                self.probe('ckpt_rays_failed')
+            self.probe('ckpt_rays_compared', len(rays))
+        for name in ('f2', 'F2', 'EPL', 'EPD', 'XPL', 'FNO', 'marginal_ray',
+                     'chief_ray'):
+            va = self.paraxial_value(A, name)
+            vb = self.paraxial_value(B, name)
+            self.stats['oracle_checks'] += 1
+            tol = {} if exact else {'rtol': 1e-7, 'atol': 1e-9}
+            ok, where = same(va, vb, **tol)
+            if not ok:
+                raise Violation('behaviour', f'C19/ckpt/behaviour/paraxial',
+                                f'paraxial {name} differs: {va} vs {vb}')
+
+    def paraxial_value(self, L, name):
+        try:
+            with quiet(), warnings.catch_warnings():
+                warnings.simplefilter('ignore')
+                return canon(getattr(L.paraxial, name)())
+        except Exception as e:
+            return ['raised', type(e).__name__]
+
+    def bsdf_safe(self, L, k, rays, w):
+        """Scatter code spins forever on a non-finite ray; compare lenses
+        with a scatter model only if every ray reaches and leaves the
+        (single) scattering surface finite, established on the same lens
+        with the scatter model switched off."""
+        surf = L.surface_group.surfaces[k]
+        keep = surf.bsdf
+        surf.bsdf = None
+        try:
+            Hx = np.array([r[0] for r in rays], dtype=float)
+            Hy = np.array([r[1] for r in rays], dtype=float)
+            Px = np.array([r[2] for r in rays], dtype=float)
+            Py = np.array([r[3] for r in rays], dtype=float)
+            with quiet(), warnings.catch_warnings():
+                warnings.simplefilter('ignore')
+                L.trace_generic(Hx, Hy, Px, Py, w)
+            sg = L.surface_group
+            ok = all(np.isfinite(np.array(getattr(sg, q))[:k + 1]).all()
+                     for q in ('x', 'y', 'z', 'L', 'M', 'N'))
+        except Exception:
+            ok = False
+        finally:
+            surf.bsdf = keep
+        return ok
 
     # ---- structure edits with no documented placement semantics
     def op_insert(self, op):
@@ -862,6 +1081,15 @@ def gen_edit(ch, w, sw):
                                      'marginal_ray', 'chief_ray'], 0.25,
                                     at_least=1)
         return op
+    if kind == 'ckpt':
+        nr = ch.randint(2, 7)
+        rays = []
+        for _ in range(nr):
+            rays.append([0.0, ch.pick([0.0, 0.7, 1.0, -1.0]),
+                         ch.rounded(ch.uniform(-1, 1), 3),
+                         ch.rounded(ch.uniform(-1, 1), 3), ch.randint(0, 2)])
+        return {'op': 'ckpt', 'mode': ch.pick(['dict', 'file']),
+                'restart': ch.chance(0.3), 'rays': rays}
     if kind == 'scale':
         s = ch.rounded(ch.loguniform(0.01, 100), 4)
         if sw.get('last_scale') and ch.chance(0.3):
@@ -885,6 +1113,7 @@ def gen_edit(ch, w, sw):
 C07_FEATS = ['conic', 'tilt', 'mirror', 'glass', 'abbe', 'absorb',
              'finite_obj', 'vignette', 'aperture', 'multi_wl', 'fno', 'na',
              'planes', 'stop_any', 'glass_str', 'units']
+C19_FEATS = [x for x in lensgen.ALL_FEATURES if x != 'bsdf']
 C01_FEATS = [x for x in lensgen.ALL_FEATURES
              if x not in ('bsdf', 'coat_simple', 'coat_fresnel', 'polarized')]
 
@@ -899,6 +1128,14 @@ def swarm(ch, prop, cfg):
         enabled = ['scale'] + ch.subset(kinds[1:], 0.5)
         weights = {k: ch.uniform(0.3, 2.0) for k in enabled}
         weights['scale'] = ch.uniform(2.0, 5.0)
+    elif prop == 'C19':
+        feats = lensgen.pick_features(ch, C19_FEATS, 0.3)
+        if 'bsdf' in lensgen.ALL_FEATURES and ch.chance(0.08):
+            feats.add('bsdf')
+        kinds = list(EDIT_KINDS) + ['scale']
+        enabled = ['ckpt'] + ch.subset(kinds, 0.5, at_least=1)
+        weights = {k: ch.uniform(0.3, 2.0) for k in enabled}
+        weights['ckpt'] = ch.uniform(1.0, 3.0)
     else:
         feats = lensgen.pick_features(ch, C01_FEATS, 0.3)
         kinds = list(EDIT_KINDS)
